@@ -3,6 +3,7 @@
 #ifndef VERIF_C20_RT2_HH
 #define VERIF_C20_RT2_HH 1
 #include "harness/c20_rt.hh"
+#include <functional>
 
 namespace c20 {
 
@@ -383,6 +384,50 @@ template <class P> struct ProbIdx : Arg {
   P& t() { return *tw; }
   void check(Run& R, bool) { if (dump(*c) != dump(*tw)) R.fail("capi:const-handle-modified", "problem changed", "same as twin"); }
   std::string show() const { return "constraint " + itos(menu[cur].second) + " of " + Menu<P>::lab(menu[cur].first); }
+};
+
+
+// ------------------------------------------------------------------------------------------------
+// handle life cycles: create -> op -> delete, repeated; the number of live ::operator new blocks must be
+// stationary (a leak grows it, a double free / mismatched delete is caught by AddressSanitizer)
+// ------------------------------------------------------------------------------------------------
+struct LifeSeq {
+  Run& R;
+  struct C { const char* name; std::function<int(void**)> f; };
+  struct O { const char* name; std::function<int(void*)> f; };
+  std::vector<C> cs; std::vector<O> os;
+  explicit LifeSeq(Run& r) : R(r) {}
+  void creator(const char* n, std::function<int(void**)> f) { C c = {n, f}; cs.push_back(c); }
+  void op(const char* n, std::function<int(void*)> f) { O o = {n, f}; os.push_back(o); }
+  void run(DelFn del) {
+    long long sub = -1;
+    for (size_t i = 0; i < cs.size(); ++i) for (size_t j = 0; j < os.size(); ++j) {
+      ++sub;
+      if (!vf::pool().want(sub, R.sub_start)) continue;
+      if (G.args->expired()) { vf::count(vf::CNT_SKIPPED); return; }
+      vf::pool().step(sub);
+      std::string what = std::string(cs[i].name) + " -> " + os[j].name + " -> delete";
+      if (G.desc) { std::string d = vf::J().str("fn", R.fname).str("sequence", what).str("trig", "none").done(); strncpy(G.desc, d.c_str(), 1500); }
+      long live[4] = {0, 0, 0, 0};
+      bool bad = false, skipped_creators = false;
+      for (int round = 0; round < 4 && !bad; ++round) {
+        void* h = 0;
+        G.hcalls = 0;
+        int rc = cs[i].f(&h);
+        if (rc != 0 || !h) { bad = true; skipped_creators = true; break; }   // creator not applicable to this domain
+        (void) os[j].f(h);      // an error return is fine: the handle must stay deletable
+        G.hcalls = 0;
+        int r3 = del(h);
+        if (r3 != 0 || G.hcalls != 0) { R.fail("life:delete-failed", what + ": rc " + itos(r3) + ", handler calls " + itos(G.hcalls), "0"); bad = true; }
+        live[round] = live_blocks();
+      }
+      if (skipped_creators) continue;
+      vf::count(vf::CNT_TRANS); vf::count(CNT_LIFE); vf::count(CNT_NORMAL);
+      if (G.covered) G.covered[R.item] = 1;
+      if (!bad && live[3] != live[2])
+        R.fail("life:leak", what + ": live blocks " + itos(live[2]) + " -> " + itos(live[3]) + " after one more round", "stationary");
+    }
+  }
 };
 
 // a raw out pointer that is neither compared nor released automatically
